@@ -3,58 +3,75 @@ import os, json
 import vf
 from _ctlreg import par, trace_actions, path_cover as big_path_cover
 
-PROP_INVS = "DeliveredToIssuerFromTarget NoResponseLost QuietComplete"
+PROP_INVS = "DeliveredToIssuerFromTarget ErrorOnlyForBrokenPath NoResponseLost QuietComplete"
 ALL_INVS = "TypeOK " + PROP_INVS + " TablesDisjoint QuietClean"
-DEVS = ["DevForwardTableKeyedByIdOnly", "DevOwnPendingSwallowsRelayed"]
+DEVS = ["DevForwardTableKeyedByIdOnly", "DevOwnPendingSwallowsRelayed", "DevFailFastUnderForwardId"]
 # site of each deviation in the code (part of the finding key)
-SITE = {"DevForwardTableKeyedByIdOnly": "agent.forwardedControl", "DevOwnPendingSwallowsRelayed": "agent.pendingControl"}
+SITE = {"DevForwardTableKeyedByIdOnly": "agent.forwardedControl", "DevOwnPendingSwallowsRelayed": "agent.pendingControl",
+        "DevFailFastUnderForwardId": "agent.handlePeerDisconnect"}
 # askers of the seed scenario of each deviation (the smallest configuration that exposes it)
-SEED_ASKERS = {"DevForwardTableKeyedByIdOnly": ["A", "B"], "DevOwnPendingSwallowsRelayed": ["A", "B", "T"]}
+SEED_ASKERS = {"DevForwardTableKeyedByIdOnly": ["A", "B"], "DevOwnPendingSwallowsRelayed": ["A", "B", "T"],
+               "DevFailFastUnderForwardId": ["A", "B", "T"]}
+# bounds (MaxReq, MaxPer, Cancels, MaxDown) and invariants of each deviation's seed run
+SEED_CFG = {"DevForwardTableKeyedByIdOnly": (2, 1, 0, 0), "DevOwnPendingSwallowsRelayed": (2, 1, 0, 0),
+            "DevFailFastUnderForwardId": (3, 2, 0, 1)}
+SEED_INVS = {"DevFailFastUnderForwardId": "ErrorOnlyForBrokenPath"}
 HFILES = ["common/common_test.go.tmpl", "agent/cmesh_test.go", "agent/ctlreg_await_test.go", "agent/control_test.go"]
 
 
-def cfg(askers, maxreq, maxper, cancels, dev=(), emit=False, invs=ALL_INVS):
-    return ("CONSTANTS Askers = {%s} MaxReq = %d MaxPer = %d Cancels = %d Dev = {%s} Emit = %s\n"
+def cfg(askers, maxreq, maxper, cancels, maxdown=0, dev=(), emit=False, invs=ALL_INVS):
+    return ("CONSTANTS Askers = {%s} MaxReq = %d MaxPer = %d Cancels = %d MaxDown = %d Dev = {%s} Emit = %s\n"
             "INIT Init\nNEXT Next\nVIEW view\nACTION_CONSTRAINT EmitEdge\n%s" % (
-                ",".join('"%s"' % a for a in askers), maxreq, maxper, cancels, ",".join('"%s"' % d for d in dev),
+                ",".join('"%s"' % a for a in askers), maxreq, maxper, cancels, maxdown, ",".join('"%s"' % d for d in dev),
                 "TRUE" if emit else "FALSE", ("INVARIANTS " + invs + "\n") if invs else ""))
 
 
 def model(ctx):
-    """TLC: the ideal design satisfies the property on the bounded instance (every interleaving of frame
-    deliveries); every deviation is caught; returns the emitted relation of the replayed instance."""
+    """TLC: the ideal design satisfies the property on the bounded instances (every interleaving of frame
+    deliveries); every deviation is caught; returns the emitted relations of the replayed instances."""
     askers = ["A", "B", "T"]
-    small = (2, 2, 1) if ctx.quick() else (3, 2, 1)      # exhaustive check + every transition replayed
-    big = small if ctx.quick() else (4, 2, 1)            # thorough: a larger instance, exhaustive check only
+    # (MaxReq, MaxPer, Cancels, MaxDown); every transition of these instances is replayed on real agents
+    small = (2, 2, 1, 0) if ctx.quick() else (3, 2, 1, 0)
+    downinst = (2, 1, 0, 1) if ctx.quick() else (2, 2, 1, 1)     # with a target's connection breaking
+    # exhaustive check only
+    bigs = [(2, 2, 1, 1)] if ctx.quick() else [(4, 2, 1, 0), (3, 2, 0, 1)]
     w = 2 if ctx.quick() else 4
 
-    def ideal_job(c):
-        return c.tlc("Control", "MC.cfg", files={"MC.cfg": cfg(askers, *small, emit=True)}, name="Control-replayed", workers=w)
+    def ideal_job(bounds, name):
+        def job(c):
+            fn = "MC-%s.cfg" % name
+            return c.tlc("Control", fn, files={fn: cfg(askers, *bounds, emit=True)}, name="Control-" + name, workers=w)
+        return job
 
     def dev_job(d):
         def job(c):
             fn = "MCdev-%s.cfg" % d
-            return c.tlc("Control", fn, files={fn: cfg(SEED_ASKERS[d], 2, 1, 0, dev=[d], invs=PROP_INVS)},
+            return c.tlc("Control", fn, files={fn: cfg(SEED_ASKERS[d], *SEED_CFG[d], dev=[d], invs=SEED_INVS.get(d, PROP_INVS))},
                          expect_violation=True, name="Control-" + d, workers=2)
         return job
-    res = par(ctx, [ideal_job] + [dev_job(d) for d in DEVS])
-    ideal = res[0]
-    if ideal.violated:
-        raise vf.Infra("ideal Control spec violates %s (specification error)" % ideal.violated)
+    res = par(ctx, [ideal_job(small, "replayed"), ideal_job(downinst, "replayed-down")] + [dev_job(d) for d in DEVS])
+    ideals = res[:2]
+    for r in ideals:
+        if r.violated:
+            raise vf.Infra("ideal Control spec violates %s (specification error)" % r.violated)
     caught, seeds = {}, []
-    for d, r in zip(DEVS, res[1:]):
+    for d, r in zip(DEVS, res[2:]):
         if not r.violated:
             raise vf.Infra("deviation %s not detected by the invariants (vacuous model)" % d)
         caught[d] = r.violated
         seeds.append({"name": d, "steps": trace_actions(r)})
-    return {"askers": askers, "big": big, "small": small, "ideal": ideal, "caught": caught, "seeds": seeds}
+    return {"askers": askers, "bigs": bigs, "small": small, "downinst": downinst, "ideals": ideals, "caught": caught,
+            "seeds": seeds}
 
 
 def replay(ctx, mdl, shards=None, stress=None):
     """Replay the edge cover of the ideal relation and the deviations' seed scenarios on real agents; concurrently
     check the larger instance (thorough) and run the free-running stress test."""
-    cover = vf.path_cover if len(mdl["ideal"].edges) <= 20000 else big_path_cover
-    paths, nnodes, nedges = cover(mdl["ideal"].edges)
+    paths, nnodes, nedges = [], 0, 0
+    for r in mdl["ideals"]:
+        cover = vf.path_cover if len(r.edges) <= 20000 else big_path_cover
+        p, n, e = cover(r.edges)
+        paths, nnodes, nedges = paths + p, nnodes + n, nedges + e
     ctx.rng.shuffle(paths)
     if os.environ.get("VERIF_CORRUPT"):
         # binding self-test: corrupt ONE expected state (the answering agent of one delivered result); the run must
@@ -80,17 +97,19 @@ def replay(ctx, mdl, shards=None, stress=None):
                             env={"ZZV_IN": inp, "ZZV_SHARD": i, "ZZV_NSHARD": shards, "ZZV_ROUNDS": rounds, "ZZV_PER": per})
         return job
 
-    def big_job(c):
-        if mdl["big"] == mdl["small"]:
-            return mdl["ideal"]
-        return c.tlc("Control", "MCbig.cfg", files={"MCbig.cfg": cfg(mdl["askers"], *mdl["big"])}, name="Control-big", timeout=2400)
-    res = par(ctx, [big_job] + [shard_job(i) for i in range(shards)])
-    r_big = res[0]
-    if r_big.violated:
-        raise vf.Infra("ideal Control spec violates %s on the larger instance (specification error)" % r_big.violated)
-    mdl["r_big"] = r_big
+    def big_job(bounds):
+        def job(c):
+            fn = "MCbig-%d%d%d%d.cfg" % bounds
+            return c.tlc("Control", fn, files={fn: cfg(mdl["askers"], *bounds)}, name="Control-big", timeout=2400)
+        return job
+    nb = len(mdl["bigs"])
+    res = par(ctx, [big_job(b) for b in mdl["bigs"]] + [shard_job(i) for i in range(shards)])
+    for r_big in res[:nb]:
+        if r_big.violated:
+            raise vf.Infra("ideal Control spec violates %s on the larger instance (specification error)" % r_big.violated)
+    mdl["r_bigs"] = res[:nb]
     recs, summ = [], []
-    for r in res[1:]:
+    for r in res[nb:]:
         s = r.of("summary")
         if not s:
             raise vf.Infra("control replay harness produced no summary:\n" + r.out[-3000:])
@@ -123,6 +142,8 @@ def classify(ctx, mdl, mismatches):
         return {}
     rel = {}
     for d in DEVS:
+        if d not in ("DevForwardTableKeyedByIdOnly", "DevOwnPendingSwallowsRelayed"):
+            continue
         r = ctx.tlc("Control", "MCrel.cfg", files={"MCrel.cfg": cfg(mdl["askers"], *mdl["small"], dev=[d], emit=True, invs="")},
                     name="Control-rel-" + d)
         rel[d] = set((obs_of(e["s"]), sched_key(e["a"]), obs_of(e["t"])) for e in r.edges)
